@@ -17,7 +17,6 @@ names t with contains(t)==1 after add(s) on an empty VFS; s ~ s' iff K(s) == K(s
 required to be used consistently by add / delete / contains / read in every history.
 """
 import ctypes
-import itertools
 import json
 
 from .. import core, mj
@@ -131,6 +130,7 @@ def learn_classes(lib, part):
         v = Vfs(lib)
         rc = v.add(s, b"x")
         ks = frozenset(j for j, t in enumerate(NAMES) if v.has(t) == 1)
+        rc2 = v.add(s, b"yy")
         v.close()
         part["traces"] += 1
         part["transitions"] += 1
@@ -141,8 +141,8 @@ def learn_classes(lib, part):
             irreflexive.add(i)
             _viol(part, KEY_CONTAINS,
                            "fresh mjVFS: mj_addBufferVFS(vfs, %r, \"x\", 1) returned %d, then mj_containsBufferVFS(vfs, %r) returned 0 "
-                           "(expected 1); the names reported present are %r; a second add of the same string returns the repeated-name code"
-                           % (s.decode(), rc, s.decode(), [NAMES[j].decode() for j in sorted(ks)]),
+                           "(expected 1); the names reported present are %r; a second mj_addBufferVFS of the same string returned %d"
+                           % (s.decode(), rc, s.decode(), [NAMES[j].decode() for j in sorted(ks)], rc2),
                            {"history": [op_str(("add", i, 1)), op_str(("has", i))], "name": s.decode(), "ops": [["add", i, 1], ["has", i]]})
         K.append(ks)
     order = []
@@ -297,8 +297,6 @@ def _nodedup_chunk(chunk):
     part = core.Part()
     judge = Judge(_G["cls"], _G["irr"])
     depth = _G["nd_depth"]
-    states = set()
-
     def rec(hist, st):
         for op in MUTATORS:
             ret, obs, obs2 = run_history(lib, hist + (op,))
@@ -306,7 +304,6 @@ def _nodedup_chunk(chunk):
             part["transitions"] += 1
             part["evaluations"] += 1
             st2, ok = judge.judge(part, hist, op, ret, obs, obs2, st)
-            states.add(obs)
             if ok and len(hist) + 1 < depth:
                 rec(hist + (op,), st2)
 
@@ -360,9 +357,10 @@ def run(ctx):
         if any(o[0] for o in obs):
             ctx.nontrivial.add("state:" + repr(obs))
     for obs, hist in sorted(seen.items(), key=lambda kv: (-len(kv[1]), repr(kv[0])))[:3]:
-        ctx.count(0, sample={"history": [op_str(o) for o in hist],
-                             "observable_state": [[NAMES[i].decode(), o[0], o[1] if not isinstance(o[1], bytes) else o[1].decode()]
-                                                  for i, o in enumerate(obs)]})
+        ctx.count(0, sample={"history": hist_str(hist),
+                             "observable_state (name: contains, bytes read)": "; ".join(
+                                 "%s: %d, %r" % (NAMES[i].decode(), o[0], o[1].decode() if isinstance(o[1], bytes) else o[1])
+                                 for i, o in enumerate(obs))})
 
     # ---- all mutator histories without de-duplication (hidden-state cross-check of the de-duplication)
     core.pmap(ctx, _nodedup_chunk, MUTATORS, nchunks=len(MUTATORS))
